@@ -182,7 +182,14 @@ func TestC04(t *testing.T) {
 	rapid.Check(t, func(t *rapid.T) {
 		o := genOptions(t, rec)
 		big := pct(t, "big", map[bool]int{true: 4, false: 1}[thorough()])
-		c, _ := genOptionHistory(t, historyPlan{MinBatches: 1, MaxBatches: 8, Big: big, Knobs: gen.InDomain()})
+		minb, maxb := 1, 8
+		if big {
+			// crossing 65,535 needs the default / 16-bit limit or wider, and at
+			// least two large batches
+			o.Dict = rapid.SampledFrom([]string{"u32", "", "u16", "u64"}).Draw(t, "bigdict")
+			minb, maxb = 2, 4
+		}
+		c, _ := genOptionHistory(t, historyPlan{MinBatches: minb, MaxBatches: maxb, Big: big, Knobs: gen.InDomain()})
 		c.Options = o
 		res, err := RunStream(c, RunConfig{Decode: true, StopAtDecodeFail: true})
 		if err != nil {
